@@ -1,6 +1,7 @@
 (* C14 — Scoped signing keys and the one-call user-token issuer.
-   Only statements; proofs in Proofs/Scope.v (and the codec meta-theorem). *)
-From JWT Require Import Base.Codec Model.Claims Model.Scope Proofs.Codec Proofs.Scope.
+   Only statements; proofs in Proofs/Scope.v and Proofs/ScopeCodec.v (the codec
+   meta-theorem of Proofs/Codec.v instantiated on the signing-key set). *)
+From JWT Require Import Base.Codec Model.Claims Model.Scope Proofs.Scope Proofs.ScopeCodec.
 Open Scope string_scope.
 Open Scope Z_scope.
 
@@ -34,6 +35,7 @@ Theorem C14_issue_user_roles : forall ar ur sr,
 Proof. exact issue_user_roles. Qed.
 Theorem C14_issue_user_claims : forall ar ur acct user name now_ns d tags c,
   has_type (TList TStr) tags = true ->
+  -9223372036854775808 <= (now_ns + d) / 1000000000 <= 9223372036854775807 ->   (* ADDED: int64 range of the expiry *)
   issue_user_claims ar ur acct user name now_ns d tags = Some c ->
   ar = RAccount /\ ur = RUser /\
   getp sch_user ["sub"] c = Some (VStr user) /\
